@@ -1,0 +1,99 @@
+//go:build verif
+
+package multicast
+
+// Contracts for the asynchronous read/write paths of UDPPeer (properties C01 exactly-once, C14
+// dispatch depth): the same structure as packetConn in the root package.
+
+//@ immutable [C01,C14] UDPPeer.ioc UDPPeer.socket UDPPeer.read UDPPeer.write UDPPeer.stats readReactor.peer writeReactor.peer constructors NewUDPPeer
+
+//@ pred upInv(p *UDPPeer) = p.ioc != nil && 0 <= p.slot.Fd && p.ioc.poller != nil && internal.pInv(p.ioc.poller) && p.socket != nil &&
+//@   p.read != nil && p.write != nil && p.read.peer == p && p.write.peer == p && p.stats != nil
+//@ pred upArmedR(p *UDPPeer) = internal.armed(&p.slot, internal.PollerReadEvent)
+//@ pred upArmedW(p *UDPPeer) = internal.armed(&p.slot, internal.PollerWriteEvent)
+
+//@ func fnparam:(*UDPPeer).*.fn
+//@   trusted
+//@   ensures internal.pInv(p.ioc.poller) && p.ioc.Dispatched == old(p.ioc.Dispatched)
+
+//@ func (*UDPPeer).Closed
+//@   pure
+
+// The socket layer (recvfrom/sendto and address conversion) is outside these contracts.
+//@ func (*UDPPeer).Read
+//@   trusted
+//@   modifies mem(b)
+//@ func (*UDPPeer).Write
+//@   trusted
+//@   modifies nothing
+
+//@ func (*UDPPeer).scheduleRead
+//@   prop C01, C03
+//@   requires upInv(p) && fn != nil && !upArmedR(p)
+//@   consumes fn unless upArmedR(p)
+//@   ensures [armed] invoked(fn) == 0 ==> p.ioc.poller.pending == old(p.ioc.poller.pending) + 1 && p.slot.Handlers[0] != nil
+//@   ensures [depth] p.ioc.Dispatched == old(p.ioc.Dispatched)
+
+//@ func (*UDPPeer).asyncReadNow
+//@   prop C01
+//@   requires upInv(p) && fn != nil && !upArmedR(p)
+//@   consumes fn unless upArmedR(p)
+//@   ensures [depth] p.ioc.Dispatched == old(p.ioc.Dispatched)
+
+//@ func (*UDPPeer).AsyncRead$1
+//@   prop C14, C01
+//@   requires p != nil && upInv(p) && fn != nil && 0 <= p.ioc.Dispatched && p.ioc.Dispatched < sonic.MaxCallbackDispatch
+//@   assert call fn: 1 <= p.ioc.Dispatched && p.ioc.Dispatched <= sonic.MaxCallbackDispatch && arg0 == err && arg1 == n
+//@   consumes fn
+//@   ensures [depth] p.ioc.Dispatched == old(p.ioc.Dispatched)
+
+//@ func (*UDPPeer).AsyncRead
+//@   prop C01, C14
+//@   requires upInv(p) && fn != nil && !upArmedR(p) && 0 <= p.ioc.Dispatched && p.ioc.Dispatched <= sonic.MaxCallbackDispatch
+//@   inline call (*UDPPeer).asyncReadNow
+//@   // the immediate attempt is made only below the dispatch limit
+//@   assert call UDPPeer).Read: p.ioc.Dispatched < sonic.MaxCallbackDispatch
+//@   assert any call fn: [C14 counted] p.ioc.Dispatched > old(p.ioc.Dispatched)
+//@   consumes fn unless upArmedR(p)
+//@   ensures [depth] p.ioc.Dispatched == old(p.ioc.Dispatched)
+
+//@ func (*UDPPeer).scheduleWrite
+//@   prop C01, C03
+//@   requires upInv(p) && fn != nil && !upArmedW(p)
+//@   consumes fn unless upArmedW(p)
+//@   ensures [armed] invoked(fn) == 0 ==> p.ioc.poller.pending == old(p.ioc.poller.pending) + 1 && p.slot.Handlers[1] != nil
+//@   ensures [depth] p.ioc.Dispatched == old(p.ioc.Dispatched)
+
+//@ func (*UDPPeer).asyncWriteNow
+//@   prop C01
+//@   requires upInv(p) && fn != nil && !upArmedW(p)
+//@   consumes fn unless upArmedW(p)
+//@   ensures [depth] p.ioc.Dispatched == old(p.ioc.Dispatched)
+
+//@ func (*UDPPeer).AsyncWrite$1
+//@   prop C14, C01
+//@   requires p != nil && upInv(p) && fn != nil && 0 <= p.ioc.Dispatched && p.ioc.Dispatched < sonic.MaxCallbackDispatch
+//@   assert call fn: 1 <= p.ioc.Dispatched && p.ioc.Dispatched <= sonic.MaxCallbackDispatch && arg0 == err && arg1 == n
+//@   consumes fn
+//@   ensures [depth] p.ioc.Dispatched == old(p.ioc.Dispatched)
+
+//@ func (*UDPPeer).AsyncWrite
+//@   prop C01, C14
+//@   requires upInv(p) && fn != nil && !upArmedW(p) && 0 <= p.ioc.Dispatched && p.ioc.Dispatched <= sonic.MaxCallbackDispatch
+//@   inline call (*UDPPeer).asyncWriteNow
+//@   assert call UDPPeer).Write: p.ioc.Dispatched < sonic.MaxCallbackDispatch
+//@   assert any call fn: [C14 counted] p.ioc.Dispatched > old(p.ioc.Dispatched)
+//@   consumes fn unless upArmedW(p)
+//@   ensures [depth] p.ioc.Dispatched == old(p.ioc.Dispatched)
+
+// The handlers the poller dispatches for deferred operations: the recorded callback is completed
+// exactly once, now or (would-block again) after the operation is armed again.
+//@ func (*readReactor).on
+//@   prop C01
+//@   requires r.peer != nil && upInv(r.peer) && r.peer.read == r && r.fn != nil && !upArmedR(r.peer)
+//@   consumes r.fn unless upArmedR(r.peer)
+
+//@ func (*writeReactor).on
+//@   prop C01
+//@   requires r.peer != nil && upInv(r.peer) && r.peer.write == r && r.fn != nil && !upArmedW(r.peer)
+//@   consumes r.fn unless upArmedW(r.peer)
